@@ -54,15 +54,22 @@ _U2 = _randu(2, 7)
 _U3 = _randu(3, 11)
 
 
+def _cs(x):
+    # numpy's functions, as real gate packages use them: an infinite angle (a literal such
+    # as 1.0e999) gives NaN entries instead of an exception
+    with np.errstate(invalid="ignore"):
+        return float(np.cos(x)), float(np.sin(x))
+
+
 def _rx(t):
     t = _v(t)
-    c, s = math.cos(t / 2), math.sin(t / 2)
+    c, s = _cs(t / 2)
     return np.array([[c, -1j * s], [-1j * s, c]])
 
 
 def _ry(t):
     t = _v(t)
-    c, s = math.cos(t / 2), math.sin(t / 2)
+    c, s = _cs(t / 2)
     return np.array([[c, -s], [s, c]], dtype=complex)
 
 
